@@ -19,8 +19,8 @@ Tolerance classes (DESIGN 1.5)
   R   1e-10 * scale; where a Boltzmann factor computed from scipy.constants enters, the
       unit allowance GR.UNIT_RTOL * (1 + |dE/kT|) is added (the library's k_B is a
       hand-entered older CODATA value, 6e-8 away from scipy's).
-  Q   golden-rule clauses: a + b*w*dt relative (see _tol_rates/_tol_tensor for the
-      derivation).  Admissible grids only: window >= 10 tau_c, dt <= tau_c/25, |w| inside
+  Q   golden-rule clauses: a + b*w*dt relative, constants per route (see
+      _tol_rates/_tol_tensor for the derivation).  Admissible grids only: window >= 10 tau_c, dt <= tau_c/25, |w| inside
       the resolved window and below the library's 3000 cm^-1 cut-off, all Matsubara terms
       the grid can represent (nu_n <= 2 pi/dt) present in the analytic C(t).
       Foerster detailed balance: the quadrature error of the uphill rate is absolute (the
@@ -45,8 +45,10 @@ from mc.refmodels import golden_rule as GR
 LEVEL = "model_checking"
 
 RTOL = 1.0e-10
-QTOL_RATES = (0.02, 0.45)   # rate matrix vs golden rule: a + b * w * dt   (see _tol_rates)
-QTOL_TENSOR = (0.01, 0.15)  # tensor / TD long-time limit vs golden rule: a + b * w * dt
+QTOL_RATES = (0.02, 0.45)    # rate matrix vs golden rule, analytic C(t): a + b * w * dt
+QTOL_RATES_SD = (0.002, 0.0)  # same, C(t) derived from a SpectralDensity (exact FFT round trip)
+QTOL_TENSOR = (0.004, 0.05)  # tensor / K(t_max) vs golden rule, analytic C(t): a + b * w * dt
+QTOL_TENSOR_SD = (0.02, 0.30)  # same, C(t) derived from a SpectralDensity
 QTOL_F_REL = 0.05       # Foerster detailed balance, relative part
 QTOL_F_ABS = 0.01       # Foerster detailed balance, absolute part in units of the downhill rate
 F_DECAY = 8.0           # exp(-8) = 3e-4 truncation of the Foerster integrand
@@ -54,20 +56,27 @@ E0 = 10000.0            # site-energy offset (1/cm): ground state well outside t
 FREQ_CUTOFF_CM = 3000.0  # library constant; transition frequencies above are not claimed
 
 
-def _tol_rates(w, dt):
+def _tol_rates(route):
     """RedfieldRateMatrix uses the FFT of the Hermitian extension of C(t), i.e. the
     trapezoid rule for the half-Fourier integral.  Euler-Maclaurin: the leading error of
     2 Re int_0^inf C(t) e^{iwt} dt is -(dt^2/6) Re[C'(0) + i w C(0)]; with Matsubara
     terms up to 2pi/dt, Re C'(0) ~ -4 lam/(tau dt), so the error is O(lam dt/tau) and
     relative to C(w) ~ 2 (1+coth) lam/(tau w) it is ~ w dt/(3 (1+coth)): linear in w*dt.
-    Observed on the clean tree (thorough grid): <= 0.004 + 0.085 w dt; allowed 5x that."""
-    return QTOL_RATES[0] + QTOL_RATES[1] * w * dt
+    Observed on the clean tree (thorough grid): <= 0.004 + 0.085 w dt; allowed 5x that.
+    Route "sd": C(t) IS the inverse FFT of (1+coth)J on the same grid, the forward FFT
+    returns it exactly and only the spline interpolation between frequency points
+    remains: observed <= 2.8e-4, allowed 2e-3."""
+    q = QTOL_RATES_SD if route == "sd" else QTOL_RATES
+    return lambda w, dt: q[0] + q[1] * w * dt
 
 
-def _tol_tensor(w, dt):
-    """Spline quadrature of C(t) e^{iwt} on the grid (tensor and K(t_max)); same scaling,
-    smaller constants: observed <= 0.002 + 0.03 w dt on the clean tree; allowed 5x."""
-    return QTOL_TENSOR[0] + QTOL_TENSOR[1] * w * dt
+def _tol_tensor(route):
+    """Spline quadrature of C(t) e^{iwt} on the time grid (tensor and K(t_max)); same
+    w*dt scaling.  Observed on the clean tree: analytic C(t) <= 0.0008 + 0.006 w dt
+    (worst 0.18 %); C(t) from a SpectralDensity (band-limited to pi/dt, rings at the grid
+    scale) <= 0.004 + 0.05 w dt (worst 1.0 %).  Allowed >= 5x."""
+    q = QTOL_TENSOR_SD if route == "sd" else QTOL_TENSOR
+    return lambda w, dt: q[0] + q[1] * w * dt
 
 
 # ---------------------------------------------------------------------------
@@ -203,8 +212,9 @@ def eval_system(case):
             return
         d = abs(val / g - 1.0)
         tol = tolf(w, dt)
-        worst(clause, d)
-        worst(clause + "/tol", d / tol)
+        tag = "[sd]" if route == "sd" else "[ct]"
+        worst(clause + tag, d)
+        worst(clause + "/tol" + tag, d / tol)
         if not d <= tol:
             viol.append((key, "%s(%d<-%d) = %g, golden rule %g at w = %.1f 1/cm "
                          "(rel. dev. %.3g > %.3g)"
@@ -251,7 +261,7 @@ def eval_system(case):
                          {"up": up, "down": dn}))
     for (a, b) in down:
         golden("rates.golden", "redfield-rates/golden-rule/downhill", K[a + 1, b + 1],
-               a, b, _tol_rates, "K")
+               a, b, _tol_rates(route), "K")
 
     # ---- B: Redfield tensor, downhill population element in the eigenbasis -------
     troutes = [("ctor", None)]
@@ -282,7 +292,7 @@ def eval_system(case):
             continue
         for (a, b) in down:
             golden("tensor.golden", "redfield-tensor/golden-rule/downhill/%s" % rname,
-                   float(dat[a + 1, a + 1, b + 1, b + 1].real), a, b, _tol_tensor,
+                   float(dat[a + 1, a + 1, b + 1, b + 1].real), a, b, _tol_tensor(route),
                    "R[aa,bb] in eigenbasis_of(H), ")
 
     # ---- C: time-dependent Redfield rate matrix ---------------------------------
@@ -300,7 +310,7 @@ def eval_system(case):
                      % gs, None))
     for (a, b) in down:
         golden("td.golden", "td-redfield-rates/golden-rule/long-time",
-               float(KT[-1, a + 1, b + 1]), a, b, _tol_tensor, "K(t_max)")
+               float(KT[-1, a + 1, b + 1]), a, b, _tol_tensor(route), "K(t_max)")
 
     # ---- D: Foerster rate matrix (site basis) ------------------------------------
     F = numpy.array(FoersterRateMatrix(ham, sbi).data, dtype=float)
@@ -318,7 +328,10 @@ def eval_system(case):
         tw = nt * dt
         for i in range(n):
             for j in range(i + 1, n):
-                if Jm[i][j] == 0:
+                if Jm[i][j] == 0 or route == "sd":
+                    # route sd: the library-derived C(t) makes the Foerster ratio O(dt)
+                    # inaccurate (8 % at dt = 1 fs, 4 % at 0.5 fs on the clean tree); no
+                    # tolerance separates that from mutants with a 5x margin -> not claimed
                     continue
                 ri = en[i] - baths[i][0]
                 rj = en[j] - baths[j][0]
@@ -516,7 +529,8 @@ def run(run):
         "reference: mc/refmodels/golden_rule.py (analytic J, (1+coth)J, own eigh, scipy.constants)",
         "analytic C(t) built with all Matsubara terms nu_n <= 2pi/dt (n <= 1/(kT dt))",
         "admissible axes only: Nt*dt >= 10 tau_c, dt <= tau_c/25, |w| < min(pi/dt, 3000 1/cm)",
-        "Foerster detailed balance only where Re(g_d+g_a)(t_max) >= %g" % F_DECAY,
+        "Foerster detailed balance only where Re(g_d+g_a)(t_max) >= %g and only for the "
+        "analytic C(t) (routes ham_sbi, aggregate)" % F_DECAY,
         "tensor built by the library's own protocol (protect_basis; with eigenbasis_of(ham)) "
         "and read inside eigenbasis_of(ham); uphill tensor/TD elements not claimed",
         "non-negativity demanded of RedfieldRateMatrix only (K(t) oscillates at short times)",
@@ -524,8 +538,9 @@ def run(run):
         "systems (J=0) one representative per size"]
     bc, sc = bath_cases(run.tier), system_cases(run.tier)
     run.bounds = {"tolerances": {"R": RTOL, "unit": GR.UNIT_RTOL,
-                                 "rates_vs_golden(a+b*w*dt)": QTOL_RATES,
-                                 "tensor_td_vs_golden(a+b*w*dt)": QTOL_TENSOR,
+                                 "rates_vs_golden(a+b*w*dt)": [QTOL_RATES, QTOL_RATES_SD],
+                                 "tensor_td_vs_golden(a+b*w*dt)": [QTOL_TENSOR,
+                                                                   QTOL_TENSOR_SD],
                                  "foerster_db(rel,abs)": [QTOL_F_REL, QTOL_F_ABS]},
                   "cases": {"bath": len(bc), "system": len(sc)},
                   "sizes": sorted({c["n"] for c in sc}),
